@@ -30,10 +30,13 @@ theorem map_set (den : Nat → Nat) : ∀ (kids : List Nat) (i c : Nat) (x : Nat
 
 theorem stepOk_sound {terms : Array Term} {den : Nat → Nat} (hc : Congruent terms den)
     {prev : List Step} (hprev : ∀ s ∈ prev, Holds den s) {s : Step}
-    (hleaf : s.just = .leaf → Holds den s) (hok : stepOk terms prev s = true) : Holds den s := by
+    {rules : List Rule}
+    (hleaf : s.just = .leaf → Holds den s) (hrule : ∀ r ps σ, s.just = .rule r ps σ → Holds den s)
+    (hok : stepOk rules terms prev s = true) : Holds den s := by
   unfold stepOk at hok
   cases hj : s.just with
   | leaf => exact hleaf hj
+  | rule r ps σ => exact hrule r ps σ hj
   | sym p =>
     rw [hj] at hok
     simp only at hok
@@ -88,45 +91,50 @@ theorem stepOk_sound {terms : Array Term} {den : Nat → Nat} (hc : Congruent te
             rw [h5]
             exact (map_set den t.kids i sq.rhs sq.lhs h4 hq').symm
 
-theorem checkFrom_sound {terms : Array Term} {den : Nat → Nat} (hc : Congruent terms den) :
+theorem checkFrom_sound {terms : Array Term} {den : Nat → Nat} (hc : Congruent terms den) {rules : List Rule} :
     ∀ (steps prev : List Step), (∀ s ∈ prev, Holds den s) →
-      (∀ s ∈ steps, s.just = .leaf → Holds den s) → checkFrom terms prev steps = true →
+      (∀ s ∈ steps, s.just = .leaf → Holds den s) →
+      (∀ s ∈ steps, ∀ r ps σ, s.just = .rule r ps σ → Holds den s) → checkFrom rules terms prev steps = true →
       ∀ s ∈ steps, Holds den s := by
   intro steps
   induction steps with
-  | nil => intro prev _ _ _ s hs; cases hs
+  | nil => intro prev _ _ _ _ s hs; cases hs
   | cons s rest ih =>
-    intro prev hprev hleaf hok x hx
+    intro prev hprev hleaf hrule hok x hx
     simp only [checkFrom, Bool.and_eq_true] at hok
-    have hs : Holds den s := stepOk_sound hc hprev (hleaf s List.mem_cons_self) hok.1
+    have hs : Holds den s := stepOk_sound hc hprev (hleaf s List.mem_cons_self) (hrule s List.mem_cons_self) hok.1
     rcases List.mem_cons.mp hx with rfl | hx'
     · exact hs
-    · refine ih (prev ++ [s]) ?_ (fun y hy => hleaf y (List.mem_cons_of_mem _ hy)) hok.2 x hx'
+    · refine ih (prev ++ [s]) ?_ (fun y hy => hleaf y (List.mem_cons_of_mem _ hy))
+        (fun y hy => hrule y (List.mem_cons_of_mem _ hy)) hok.2 x hx'
       intro y hy
       rcases List.mem_append.mp hy with h | h
       · exact hprev y h
       · simp at h; subst h; exact hs
 
-/-- **Soundness of the structural checker**: an accepted proof proves only what follows from its
-leaves by symmetry, transitivity and congruence. -/
-theorem C12_sound (terms : Array Term) (steps : List Step) (den : Nat → Nat) (hc : Congruent terms den)
-    (hleaf : ∀ s ∈ steps, s.just = .leaf → Holds den s) (hok : checkProof terms steps = true) :
+/-- **Soundness of the structural checker** (equational layer): an accepted proof proves only what
+follows from its program-justified steps (leaves and rule steps — for the latter see
+`C12_rule_sound` below) by symmetry, transitivity and congruence. -/
+theorem C12_sound (rules : List Rule) (terms : Array Term) (steps : List Step) (den : Nat → Nat) (hc : Congruent terms den)
+    (hleaf : ∀ s ∈ steps, s.just = .leaf → Holds den s)
+    (hrule : ∀ s ∈ steps, ∀ r ps σ, s.just = .rule r ps σ → Holds den s)
+    (hok : checkProof rules terms steps = true) :
     ∀ s ∈ steps, Holds den s :=
-  checkFrom_sound hc steps [] (fun s h => by cases h) hleaf hok
+  checkFrom_sound hc steps [] (fun s h => by cases h) hleaf hrule hok
 
 /-- a step that refers to a later (or missing) step is never accepted: proofs are well-founded -/
-theorem C12_wellfounded (terms : Array Term) (prev : List Step) (p : Nat) (l r : Nat) (h : prev.length ≤ p) :
-    stepOk terms prev ⟨.sym p, l, r⟩ = false := by
+theorem C12_wellfounded (rules : List Rule) (terms : Array Term) (prev : List Step) (p : Nat) (l r : Nat) (h : prev.length ≤ p) :
+    stepOk rules terms prev ⟨.sym p, l, r⟩ = false := by
   simp [stepOk, List.getElem?_eq_none h]
 
 /-- swapping the operands of a `Trans` whose middle terms differ is rejected -/
-theorem C12_swapped_trans_rejected (terms : Array Term) (prev : List Step) (p q : Nat) (sp sq : Step)
+theorem C12_swapped_trans_rejected (rules : List Rule) (terms : Array Term) (prev : List Step) (p q : Nat) (sp sq : Step)
     (hp : prev[p]? = some sp) (hq : prev[q]? = some sq) (hne : sq.rhs ≠ sp.lhs) (l r : Nat) :
-    stepOk terms prev ⟨.trans q p, l, r⟩ = false := by
+    stepOk rules terms prev ⟨.trans q p, l, r⟩ = false := by
   simp [stepOk, hp, hq, hne]
 
 /-- non-vacuity: f(a) = f(b) from a = b -/
-example : checkProof #[⟨0, []⟩, ⟨1, []⟩, ⟨2, [0]⟩, ⟨2, [1]⟩]
+example : checkProof [] #[⟨0, []⟩, ⟨1, []⟩, ⟨2, [0]⟩, ⟨2, [1]⟩]
     [⟨.leaf, 0, 1⟩, ⟨.leaf, 2, 2⟩, ⟨.congr 1 0 0, 2, 3⟩, ⟨.sym 2, 3, 2⟩] = true := by decide
 
 end EgglogVerif.ProofCk
